@@ -4,3 +4,5 @@ open WebPkg.C04
 #print axioms write_count
 #print axioms response_wellFormed
 #print axioms variants_index_complete
+#print axioms countingWriter_written_eq_received
+#print axioms countingWriter_readFrom_complete
